@@ -3,7 +3,11 @@
 package conversion
 
 import (
+	"bytes"
 	"math"
+
+	"github.com/lugu/qiloop/meta/signature"
+	"github.com/lugu/qiloop/type/encoding"
 
 	"github.com/lugu/qiloop/internal/zzverif/sym"
 )
@@ -204,7 +208,29 @@ func C20Incompatible() {
 		mp map[string]int32
 		st zzInner
 	)
-	switch sym.Choose("pair", 12) {
+	switch sym.Choose("pair", 15) {
+	case 12:
+		// incompatible kinds inside a struct member
+		type src struct {
+			Name  string
+			Count string
+		}
+		type dst struct {
+			Name  string
+			Count int32
+		}
+		var d dst
+		sym.Assert(ConvertFrom(&d, src{Name: "n", Count: sym.Str("c", 1)}) != nil, "struct-member string->int/refused")
+	case 13:
+		type src struct{ Items []string }
+		type dst struct{ Items []int32 }
+		var d dst
+		sym.Assert(ConvertFrom(&d, src{Items: []string{sym.Str("c", 1)}}) != nil, "struct-member []string->[]int32/refused")
+	case 14:
+		type src struct{ Flag bool }
+		type dst struct{ Flag int8 }
+		d := []dst{}
+		sym.Assert(ConvertFrom(&d, []src{{Flag: sym.Bool("f")}}) != nil, "[]struct-member bool->int/refused")
 	case 0:
 		sym.Assert(ConvertFrom(&i, sym.Str("s", 1)) != nil, "string->int/refused")
 	case 1:
@@ -264,3 +290,46 @@ func C20MapsOfContainers() {
 	_ = src3
 	sym.Reach("maps-of-containers-done")
 }
+
+// C20DecodeFrom: the path used by Proxy.Call2 when the remote signature differs from the expected
+// one: the remote value is decoded with the Go type of ITS signature and converted by field NAME.
+func C20DecodeFrom() {
+	type local struct {
+		Max int32
+		Min int32
+		Tag string
+	}
+	minV, maxV := sym.I32("min"), sym.I32("max")
+	typ, err := signature.Parse("(ii)<Range,min,max>")
+	sym.Assert(err == nil, "decodefrom/parse-ok")
+	if err != nil {
+		return
+	}
+	wire := append(zzLE32(uint32(minV)), zzLE32(uint32(maxV))...)
+	got := local{Tag: "keep"}
+	err = DecodeFrom(encoding.NewDecoder(nil, bytes.NewReader(wire)), &got, typ.Type())
+	sym.Assert(err == nil, "decodefrom/ok")
+	sym.Assert(sym.And(got.Min == minV, got.Max == maxV), "decodefrom/matched-by-field-name")
+	sym.Assert(got.Tag == "keep", "decodefrom/unrelated-field-untouched")
+	// same positional layout, permuted names: still matched by name
+	type permuted struct {
+		Max int32
+		Min int32
+	}
+	var pm permuted
+	err = DecodeFrom(encoding.NewDecoder(nil, bytes.NewReader(wire)), &pm, typ.Type())
+	sym.Assert(err == nil, "decodefrom-permuted/ok")
+	sym.Assert(sym.And(pm.Min == minV, pm.Max == maxV), "decodefrom-permuted/matched-by-field-name")
+	// widening through the same path
+	type wide struct {
+		Min int64
+		Max int64
+	}
+	var w wide
+	err = DecodeFrom(encoding.NewDecoder(nil, bytes.NewReader(wire)), &w, typ.Type())
+	sym.Assert(err == nil, "decodefrom-wide/ok")
+	sym.Assert(sym.And(w.Min == int64(minV), w.Max == int64(maxV)), "decodefrom-wide/values")
+	sym.Reach("decodefrom-done")
+}
+
+func zzLE32(x uint32) []byte { return []byte{byte(x), byte(x >> 8), byte(x >> 16), byte(x >> 24)} }
